@@ -171,4 +171,128 @@ theorem verified_ok {P : Prog} {s2 : Storage} {id : NodeId} {rev : Rev} {σx : S
       · rw [h1]; exact Nat.le_refl _
   exact ⟨BigE.transfer hbo (fun r hr => (hper r hr).1), fun rd hrd => (hper rd hrd).2⟩
 
+
+/-! ## a dependency is only verified if the current evaluation still reaches it -/
+
+/-- a read of the last run still holds if a recorded dependency on what it read is unchanged -/
+theorem read_holds_of_unchanged {P : Prog} {s2 : Storage} {rev : Rev} {rd : Read}
+    (hdf : DepFor s2 rev rd) (hst : ∀ d, d ∈ rev.deps → d.stamp ≤ rev.tv) (hmi : MapsInit s2)
+    (d : Dep) (hd : d ∈ rev.deps) (hk : d.node = rd.kind) (hu : Unchanged P s2 d) :
+    rd.holds P s2.srcs s2.maps := by
+  cases rd with
+  | src k o =>
+    simp only [DepFor] at hdf
+    simp only [Read.holds]
+    simp only [Read.kind] at hk
+    unfold Unchanged at hu
+    by_cases ho : o.1.isSome = true
+    · rw [if_pos ho] at hdf hk
+      rw [hk] at hu
+      obtain ⟨nd, hnd, hle⟩ := hu
+      exact hdf.2 ⟨nd, hnd, Nat.le_trans hle (hst d hd)⟩
+    · rw [if_neg ho] at hdf hk
+      rw [hk] at hu
+      rw [hdf.2.1]; exact keyObs_absent hmi k hu
+  | node q w =>
+    simp only [DepFor] at hdf
+    simp only [Read.holds]
+    simp only [Read.kind] at hk
+    unfold Unchanged at hu
+    rw [hk] at hu
+    obtain ⟨_, rq, hq, _, hval⟩ := hdf
+    obtain ⟨rq', hq', htu, _, Rq, hRq⟩ := hu
+    rw [hq] at hq'; cases hq'
+    have hw : rq.val = w := hval (Nat.le_trans htu (hst d hd))
+    exact ⟨Rq, by rw [← hw]; exact hRq⟩
+
+/-- what a read observes under given sources is determined by its target -/
+theorem holds_unique {P : Prog} {σ : Srcs} {m : Maps} {r1 r2 : Read} (ht : r1.target = r2.target)
+    (h1 : r1.holds P σ m) (h2 : r2.holds P σ m) : r1 = r2 := by
+  cases r1 with
+  | src k1 o1 =>
+    cases r2 with
+    | node q w => simp [Read.target] at ht
+    | src k2 o2 =>
+      simp only [Read.target, DepNode.source.injEq] at ht
+      subst ht
+      simp only [Read.holds] at h1 h2
+      rw [← h1, ← h2]
+  | node q1 w1 =>
+    cases r2 with
+    | src k o => simp [Read.target] at ht
+    | node q2 w2 =>
+      simp only [Read.target, DepNode.derived.injEq] at ht
+      subst ht
+      simp only [Read.holds] at h1 h2
+      obtain ⟨R1, hR1⟩ := h1
+      obtain ⟨R2, hR2⟩ := h2
+      rw [(BigE.det hR1 hR2).1]
+
+theorem kind_derived {rd : Read} {q : NodeId} (h : rd.kind = .derived q) : ∃ w, rd = .node q w := by
+  cases rd with
+  | src k o =>
+    simp only [Read.kind] at h
+    by_cases ho : o.1.isSome = true
+    · rw [if_pos ho] at h; cases h
+    · rw [if_neg ho] at h; cases h
+  | node x w => simp only [Read.kind] at h; cases h; exact ⟨w, rfl⟩
+
+/-- the dependencies recorded before `d` are unchanged: the current evaluation of the node (`hnow`)
+still calls the callee `d` stands for, so that callee evaluates under the current sources -/
+theorem dep_reached {P : Prog} {s2 : Storage} {id : NodeId} {rev : Rev} {σx : Srcs} {mx : Maps} {Ro R : List Read}
+    {v : Nat} (hbo : BigN P σx mx id rev.val Ro) (hnow : BigN P s2.srcs s2.maps id v R)
+    (hoo : rev.deps.map (·.node) = pushAll [] (Ro.map Read.kind))
+    (hdf : ∀ rd, rd ∈ Ro → DepFor s2 rev rd) (hst : ∀ d, d ∈ rev.deps → d.stamp ≤ rev.tv) (hmi : MapsInit s2)
+    (D1 : List Dep) (d : Dep) (D2 : List Dep) (hdec : rev.deps = D1 ++ d :: D2)
+    (hun : ∀ d', d' ∈ D1 → Unchanged P s2 d') (q : NodeId) (hq : d.node = .derived q) :
+    ∃ w R', BigN P s2.srcs s2.maps q w R' := by
+  -- the read that `d` records, and the reads before it
+  have hmap : pushAll [] (Ro.map Read.kind) = D1.map (·.node) ++ d.node :: D2.map (·.node) := by
+    rw [← hoo, hdec]; simp
+  obtain ⟨K1, K2, hK, hK1⟩ := pushAll_split _ _ _ _ hmap
+  obtain ⟨R1, Rr, hRo, hR1, hRr⟩ := List.map_eq_append_iff.1 hK
+  obtain ⟨rd, R2, hRr', hrdk, _⟩ := List.map_eq_cons_iff.1 hRr
+  subst hRr'
+  -- every read before it still holds
+  have hR1holds : ∀ r, r ∈ R1 → r.holds P s2.srcs s2.maps := by
+    intro r hr
+    have hkin : r.kind ∈ K1 := by rw [← hR1]; exact List.mem_map_of_mem hr
+    obtain ⟨d', hd', hk'⟩ := List.mem_map.1 (hK1 _ hkin)
+    have hd'm : d' ∈ rev.deps := by rw [hdec]; exact List.mem_append_left _ hd'
+    exact read_holds_of_unchanged (hdf r (by rw [hRo]; exact List.mem_append_left _ hr)) hst hmi d' hd'm hk' (hun d' hd')
+  have hRholds := BigE.reads_hold hnow
+  have hfin : ∀ r2, r2 ∈ R → r2.target = .derived q → ∃ w R', BigN P s2.srcs s2.maps q w R' := by
+    intro r2 hr2 ht
+    cases r2 with
+    | src k o => simp [Read.target] at ht
+    | node x w =>
+      simp only [Read.target, DepNode.derived.injEq] at ht
+      subst ht
+      obtain ⟨R', hR'⟩ := hRholds _ hr2
+      exact ⟨w, R', hR'⟩
+  obtain ⟨w0, hrd⟩ := kind_derived (hrdk.trans hq)
+  have hrdt : rd.target = .derived q := by rw [hrd]; rfl
+  rcases BigE.diverge hbo hnow with ⟨_, hsame⟩ | ⟨pre, r1, r2, p1, p2, hE1, hE2, ht, hne⟩
+  · exact hfin rd (by rw [← hsame, hRo]; simp) hrdt
+  · rw [hRo] at hE1
+    rcases List.append_eq_append_iff.1 hE1 with ⟨a', ha1, ha2⟩ | ⟨c', hc1, hc2⟩
+    · -- pre = R1 ++ a'
+      cases a' with
+      | nil =>
+        simp at ha2
+        exact hfin r2 (by rw [hE2]; simp) (by rw [← ht, ← ha2.1]; exact hrdt)
+      | cons x a'' =>
+        simp at ha2
+        exact hfin rd (by rw [hE2, ha1, ← ha2.1]; simp) hrdt
+    · -- R1 = pre ++ c'
+      cases c' with
+      | nil =>
+        simp at hc2
+        exact hfin r2 (by rw [hE2]; simp) (by rw [← ht, hc2.1]; exact hrdt)
+      | cons x c'' =>
+        simp at hc2
+        have hr1 : r1 ∈ R1 := by rw [hc1, ← hc2.1]; simp
+        have := holds_unique ht (hR1holds r1 hr1) (hRholds r2 (by rw [hE2]; simp))
+        exact absurd this hne
+
 end IsoVerif.Pico
